@@ -30,7 +30,6 @@ from immutabledict import immutabledict
 from typing_extensions import TypeAlias
 
 import pytools.lex
-from pytools import memoize_method
 
 
 _imaginary = intern("imaginary")
@@ -117,7 +116,8 @@ class FinalizedTuple(tuple, FinalizedContainer):
 
 
 class FinalizedList(list, FinalizedContainer):
-    @memoize_method
+    # Not memoized: the memo would travel in pickles (and the hash of the
+    # elements depends on the string hash seed of the process).
     def __hash__(self) -> int:  # type: ignore[override]
         result = hash(type(self).__name__)
         for it in self:
